@@ -139,10 +139,39 @@ class Mini:
         elif isinstance(st, ast.Assert):
             if not self.truth(self.expr(st.test)):
                 raise Raised("AssertionError")
+        elif isinstance(st, ast.Try):
+            try:
+                try:
+                    for s in st.body:
+                        self.stmt(s)
+                except Raised as ex:
+                    for h in st.handlers:
+                        if self._catches(h.type, ex.kind):
+                            if h.name:
+                                self.env[h.name] = Opaque("exception " + ex.kind)
+                            for s in h.body:
+                                self.stmt(s)
+                            break
+                    else:
+                        raise
+                else:
+                    for s in st.orelse:
+                        self.stmt(s)
+            finally:
+                for s in st.finalbody:
+                    self.stmt(s)
         elif isinstance(st, (ast.FunctionDef,)):
             self.helpers[st.name] = st
         else:
             raise Unsupported(f"statement {type(st).__name__}")
+
+    @staticmethod
+    def _catches(t: Optional[ast.AST], kind: str) -> bool:
+        if t is None:
+            return True
+        names = [ast.unparse(x) for x in (t.elts if isinstance(t, ast.Tuple) else [t])]
+        base = kind.split(".")[-1]
+        return any(n.split(".")[-1] in (base, "Exception", "BaseException") or (n.split(".")[-1] == "LookupError" and base in ("KeyError", "IndexError")) for n in names)
 
     def assign(self, t: ast.AST, v: Any) -> None:
         if isinstance(t, ast.Name):
